@@ -106,6 +106,8 @@ pub fn run_ops(case: &[Op], obs: &mut Obs) -> Result<(), Fail> {
                 let p = point(*i);
                 let present = model.contains(i);
                 let before = model.clone();
+                // where the buffer itself says the point is (its public `position`)
+                let at = buf.position(&p);
                 let eff = buf.roll_back(&p);
                 let after = content(&buf);
                 if !present {
@@ -125,7 +127,11 @@ pub fn run_ops(case: &[Op], obs: &mut Obs) -> Result<(), Fail> {
                         "step {step}: roll_back({:?}) turned {:?} into {:?} (not a prefix)", p, before_pts, after);
                     pv_ensure!(after.last() == Some(&p), "rollback-hit-does-not-end-at-point",
                         "step {step}: roll_back({:?}) turned {:?} into {:?} (does not end with the point)", p, before_pts, after);
-                    // any occurrence is accepted; the model continues from the actual content
+                    // with duplicates "up to it" means up to the occurrence the buffer's own `position` reports (for a list
+                    // model: the first one); an implementation that finds the point in one place and cuts in another
+                    // is inconsistent with itself
+                    pv_ensure!(at.map(|x| x + 1) == Some(after.len()), "rollback-hit-not-at-position",
+                        "step {step}: position({:?}) was {:?} but roll_back kept {} points of {:?}", p, at, after.len(), before_pts);
                     model.truncate(after.len());
                     if hit_then_pop == 0 {
                         hit_then_pop = 1;
